@@ -25,7 +25,7 @@ pub open spec fn sum_kids(parent: Node, c: Ctx, k: int) -> real
         sum_kids(parent, c, k - 1) + rv(weights_of(parent, c)[k - 1]) * ev(kids_of(parent)[k - 1], c)
     }
 }
-// what Game::from_root is ASSUMED to establish (C11 is not applicable) plus validity of the profile
+// what Game::from_root is ASSUMED to establish (C11 decides its rule checks per node only) plus validity of the profile
 pub open spec fn wf_node(n: Node, c: Ctx) -> bool
     decreases n
 {
